@@ -247,3 +247,89 @@ func VH_C14_automaton() {
 	vAssert("O8-no-reply", vAll(len(toSend) == 0, err == nil))
 	vReach("end")
 }
+
+// H-C14-kinds: the last fragment of a stream completes a message of every
+// kind that Receive treats differently (text, error message, query, OTRv1
+// key exchange, a nested fragment, an undecodable OTR message, a
+// whitespace-tagged text); afterwards the context is forgotten whatever the
+// kind, and a following stray fragment (index 0 / beyond the total / for a
+// foreign stream) processes nothing.
+//
+// vh: prop=C14 expect=end unwind=400 timeout=60000
+func VH_C14_kinds() {
+	v3 := vChoose("v3", 2) == 1
+	c := vhFragReceiver(v3)
+	ev := &vhEvents{}
+	c.messageEventHandler = ev
+	c.errorMessageHandler = ev
+	c.securityEventHandler = ev
+	c.Rand = vhConstRand(0x42) // (a query or error message may start a key exchange: its randomness is not the subject here)
+	c.ourKeys = []PrivateKey{vhAliceKey()}
+	kinds := [][]byte{
+		[]byte("hello there"),
+		[]byte("?OTR Error: oops"),
+		[]byte("?OTRv3?"),
+		[]byte("?OTR:AAEKAAAA."),
+		[]byte("?OTR,1,2,abc,"),
+		[]byte("?OTR:!!!!."),
+		append([]byte("hi"), append(append([]byte{}, whitespaceTagHeader...), otrV3{}.whitespaceTag()...)...),
+		[]byte("?OTR|00000122|00000245,00001,00002,abc,"),
+	}
+	m := kinds[vChoose("kind", len(kinds))]
+	if vChoose("errpolicy", 2) == 1 {
+		c.Policies.add(errorStartAKE)
+	}
+	cut := 1 + vChoose("cut", len(m)-1)
+	// the stream so far: fragment 1 of 2 is in the context
+	c.fragmentationContext = fragmentationContext{frag: makeCopy(m[:cut]), currentIndex: 1, currentLen: 2}
+	var last []byte
+	if v3 {
+		last = []byte("?OTR|00000122|00000245,00002,00002,")
+	} else {
+		last = []byte("?OTR,00002,00002,")
+	}
+	// (a piece must not contain the separator; the nested-fragment kinds do:
+	// then the outer fragment is malformed and must be ignored)
+	hasComma := false
+	for _, ch := range m[cut:] {
+		if ch == ',' {
+			hasComma = true
+		}
+	}
+	last = append(last, m[cut:]...)
+	last = append(last, ',')
+	_, _, _ = c.Receive(last)
+	after := c.fragmentationContext
+	vObserve("kinds", len(after.frag), after.currentIndex, after.currentLen, hasComma)
+	vAssert("O9-completed-stream-forgotten", !fragmentsFinished(after))
+	nmsg, nsec, nerr := len(ev.msg), len(ev.sec), len(ev.errCodes)
+	// a stray fragment afterwards
+	var stray []byte
+	sk := vChoose("stray", 3)
+	pre := "?OTR,"
+	if v3 {
+		pre = "?OTR|00000122|00000245,"
+	}
+	switch sk {
+	case 0:
+		stray = []byte(pre + "00000,00002,zz,")
+	case 1:
+		stray = []byte(pre + "00003,00002,zz,")
+	case 2:
+		stray = []byte(pre + "00002,00003,zz,")
+	}
+	plain2, toSend2, _ := c.Receive(stray)
+	vAssert("O9-stray-fragment-processes-nothing", vAll(plain2 == nil, len(toSend2) == 0, len(ev.msg) == nmsg, len(ev.sec) == nsec, len(ev.errCodes) == nerr))
+	vAssert("O9-invariant-after-stray", !fragmentsFinished(c.fragmentationContext))
+	vReach("end")
+}
+
+// vhConstRand: a randomness source that returns one fixed byte value.
+type vhConstRand byte
+
+func (r vhConstRand) Read(p []byte) (int, error) {
+	for i := range p {
+		p[i] = byte(r)
+	}
+	return len(p), nil
+}
